@@ -104,6 +104,6 @@ def relation_scenarios(ctx, quick):
     trace = ctx.path("rel.ndjson")
     p = vlib.run_driver(ctx, drv, ["-out", trace, "-rel", path], timeout=3400)
     if p.returncode != 0:
-        raise vlib.CheckError("driver failed on the relationship scenarios:\n" + (p.stdout or "")[-2500:])
+        vlib.driver_failure(ctx, p.stdout, "driver failed on the relationship scenarios")
     ctx.log("relationship scenarios: %d strata, %d paths; %s" % (len(strata), len(chosen), (p.stdout or "").strip().splitlines()[-1]))
     return trace, r, {"strata": len(strata), "paths": len(chosen), "transitions_exported": len(r.exports)}
